@@ -184,9 +184,14 @@ package sync
 // ---- grouping the logs of a range into blocks (C05): the blocks handed on are distinct, in strictly increasing order
 // and inside the requested range; a block is only built from a header whose hash equals the hash the log carries
 // (otherwise the whole range is fetched again, at most MaxRetryCountBlockHashMismatch times).
+// ctxEnded: a select case on ctx.Done() fired (set by the engine); hdrCancelled: the last header fetch was abandoned
+// because the context ended
+//@ ghost var ctxEnded bool
+//@ ghost var hdrCancelled bool
 //@ func (d *EVMDownloaderImplementation) GetBlockHeader
 //@   trusted
-//@   modifies nothing
+//@   modifies hdrCancelled
+//@   ensures hdrCancelled == result1
 //@   ensures !result1 ==> result0.Num == blockNum
 
 // every log appender (the per-topic decoding functions of the syncers) only adds to the block's event list
@@ -197,20 +202,23 @@ package sync
 //@ func (d *EVMDownloaderImplementation) getEventsByBlockRangeWithRetry
 //@   props C05
 //@   requires d != nil && d.ethClient != nil && d.log != nil && d.rh != nil && d.appender != nil
-//@   modifies heap, qFrom, qTo
+//@   modifies heap, qFrom, qTo, okQueries, lastQueryErrCancelled, ctxEnded, hdrCancelled
+// a range that could not be fetched is answered with nil, which the download loop cannot tell from "no events": that
+// answer is only acceptable when the caller's context has ended (the loop is about to stop)
+//@   ensures[no-answer-only-when-the-context-ended] result == nil ==> (ctxEnded || hdrCancelled)
 //@   ensures[blocks-inside-the-range] forall(k, 0, len(result), result[k] != nil && fromBlock <= result[k].Num && result[k].Num <= toBlock)
 //@   ensures[each-block-once-in-increasing-order] forall(k, 0, len(result) - 1, result[k].Num < result[k+1].Num)
 // every log is decoded into the block that carries the log's own number and hash (given that the node answers in block
 // order with one hash per block number, A8)
 //@   assert call:dyn arg0 != nil && arg0.Num == arg1.BlockNumber && arg0.Hash == arg1.BlockHash
-//@   loop 0 invariant d != nil && d.ethClient != nil && d.log != nil && d.rh != nil && d.appender != nil && 0 <= rangeindex + 1 && off(blocks) == 0
+//@   loop 0 invariant d != nil && d.ethClient != nil && d.log != nil && d.rh != nil && d.appender != nil && 0 <= rangeindex + 1 && off(blocks) == 0 && ref(blocks) != 0
 //@   loop 0 invariant rangeindex + 1 <= len(logs) && forall(j, 0, len(logs) - 1, logs[j].BlockNumber <= logs[j+1].BlockNumber) && forall(j, 0, len(logs), forall(i, 0, len(logs), logs[j].BlockNumber == logs[i].BlockNumber ==> logs[j].BlockHash == logs[i].BlockHash))
 //@   loop 0 invariant (latestBlock != nil) == (rangeindex >= 0) && (latestBlock != nil ==> latestBlock.Num == logs[rangeindex].BlockNumber && latestBlock.Hash == logs[rangeindex].BlockHash)
 //@   loop 0 invariant forall(k, 0, len(logs), len(logs[k].Topics) > 0 && fromBlock <= logs[k].BlockNumber && logs[k].BlockNumber <= toBlock)
 //@   loop 0 invariant (latestBlock == nil) == (len(blocks) == 0) && (latestBlock != nil ==> latestBlock == blocks[len(blocks) - 1])
 //@   loop 0 invariant forall(k, 0, len(blocks), blocks[k] != nil && fresh(blocks[k]) && fromBlock <= blocks[k].Num && blocks[k].Num <= toBlock)
 //@   loop 0 invariant forall(k, 0, len(blocks) - 1, blocks[k].Num < blocks[k+1].Num)
-//@   loop 1 invariant d != nil && d.log != nil && d.rh != nil && latestBlock != nil && latestBlock == blocks[len(blocks) - 1] && off(blocks) == 0
+//@   loop 1 invariant d != nil && d.log != nil && d.rh != nil && latestBlock != nil && latestBlock == blocks[len(blocks) - 1] && off(blocks) == 0 && ref(blocks) != 0
 //@   loop 1 invariant latestBlock.Num == l.BlockNumber && latestBlock.Hash == l.BlockHash
 //@   loop 1 invariant forall(k, 0, len(blocks), blocks[k] != nil && fresh(blocks[k]) && fromBlock <= blocks[k].Num && blocks[k].Num <= toBlock)
 //@   loop 1 invariant forall(k, 0, len(blocks) - 1, blocks[k].Num < blocks[k+1].Num)
